@@ -7,6 +7,7 @@ pub mod core;
 pub use core::*;
 
 #[cfg(feature = "compiled_data")]
+#[cfg(not(feature = "verif_loom"))]
 use crate::tzdb::FsTzdbProvider;
 #[cfg(feature = "compiled_data")]
 #[cfg(not(feature = "verif_loom"))]
@@ -42,9 +43,21 @@ pub static TZ_PROVIDER: LazyLock<ProviderMutex> =
 #[cfg(feature = "verif_loom")]
 mod verif_loom_static {
     use crate::tzdb::FsTzdbProvider;
+    /// loom twin of `ProviderMutex`
+    pub struct ProviderMutex(loom::sync::Mutex<FsTzdbProvider>);
+    impl ProviderMutex {
+        pub fn lock(
+            &self,
+        ) -> Result<loom::sync::MutexGuard<'_, FsTzdbProvider>, ::core::convert::Infallible> {
+            Ok(self
+                .0
+                .lock()
+                .unwrap_or_else(std::sync::PoisonError::into_inner))
+        }
+    }
     loom::lazy_static! {
-        pub static ref TZ_PROVIDER: loom::sync::Mutex<FsTzdbProvider> =
-            loom::sync::Mutex::new(FsTzdbProvider::default());
+        pub static ref TZ_PROVIDER: ProviderMutex =
+            ProviderMutex(loom::sync::Mutex::new(FsTzdbProvider::default()));
     }
 }
 #[cfg(feature = "verif_loom")]
